@@ -251,7 +251,9 @@ func (app *App) customRequestHandler(rctx *fasthttp.RequestCtx) {
 	defer app.ReleaseCtx(ctx)
 
 	// Check if the HTTP method is valid
-	if app.methodInt(ctx.Method()) == -1 {
+	// (taken from the request itself: ctx.Method() indexes the method table and
+	// panics for a method that is not in it)
+	if app.methodInt(utils.UnsafeString(rctx.Request.Header.Method())) == -1 {
 		_ = ctx.SendStatus(StatusNotImplemented) //nolint:errcheck // Always return nil
 		return
 	}
